@@ -68,9 +68,14 @@ func (s *Server) getGateKeeper(r *http.Request) sts.GateKeeper {
 		return gk
 	}
 	s.lock.RUnlock()
-	gk := s.GateKeeperFactory(source)
 	s.lock.Lock()
 	defer s.lock.Unlock()
+	// Look again: another request for the same source may have got here first
+	// and there must be only one gatekeeper per source
+	if gk, ok := s.GateKeepers[source]; ok {
+		return gk
+	}
+	gk := s.GateKeeperFactory(source)
 	s.GateKeepers[source] = gk
 	return gk
 }
